@@ -68,6 +68,8 @@ def guarded(fn, seconds=15):
 
 def _open(path, *a, **k):
     p = str(path)
+    if HUNG[0]:  # budget exhausted: the disk "disappears" so that include recursion behind bare `except:` unwinds
+        raise Hang()
     if p in FILES:
         return io.StringIO(FILES[p])
     raise FileNotFoundError(p)
@@ -83,7 +85,7 @@ class _OSPath:
 
     @staticmethod
     def isfile(p):
-        return str(p) in FILES
+        return not HUNG[0] and str(p) in FILES
 
 
 class _OS:
@@ -134,6 +136,55 @@ def reset(srv, files: dict):
             raise Hang()
         srv.handle({"jsonrpc": "2.0", "method": "textDocument/didOpen",
                     "params": {"textDocument": {"uri": path_to_uri(p)}}})
+    return srv
+
+
+class _Result:
+    def __init__(self, fn, args):
+        self.fn, self.args = fn, args
+
+    def get(self):
+        return self.fn(*self.args)
+
+
+class _InProcessPool:
+    """stand-in for multiprocessing.Pool in LangServer.workspace_init: the per-file work (the real file_init) runs in
+    this process when the result is fetched; scheduling / pickling are the environment (see C15, not applicable)"""
+
+    def __init__(self, processes=None):
+        pass
+
+    def apply_async(self, fn, args=()):
+        return _Result(fn, args)
+
+    def close(self):
+        pass
+
+    def join(self):
+        pass
+
+
+def fresh_init(srv, files: dict, order=None):
+    """index `files` the way a freshly started server does: the REAL workspace_init (file_init per file, merge of the
+    results, resolve_includes and resolve_links over the whole workspace) with the directory walk replaced by the
+    given file list and the process pool by an in-process stand-in.  No didOpen / didSave: no history at all."""
+    FILES.clear()
+    FILES.update(files)
+    srv.workspace = {}
+    srv.obj_tree = dict(srv._base_tree)
+    srv.link_version = 0
+    srv.pp_defs = {}
+    srv.conn.out = []
+    srv.post_messages = []
+    lst = list(order) if order is not None else sorted(files)
+    srv._get_source_files = lambda: lst
+    old = L.Pool
+    L.Pool = _InProcessPool
+    try:
+        srv.workspace_init()
+    finally:
+        L.Pool = old
+        del srv._get_source_files
     return srv
 
 
